@@ -375,7 +375,10 @@ theorem notif_clean (c : SCfg) (s : SState) (id : Nat) (failed retried : Bool)
     have hmatch : (nid == id && f == failed && r == retried) = true := by
       unfold SchedBr.notifA at hprefA
       split at hprefA
-      · assumption
+      · rename_i hcond
+        simp only [Bool.and_eq_true] at hcond
+        simp only [Bool.and_eq_true]
+        exact hcond.1
       · simp [SState.note] at hprefA
     simp only [Bool.and_eq_true, beq_iff_eq] at hmatch
     obtain ⟨⟨rfl, rfl⟩, rfl⟩ := hmatch
